@@ -266,11 +266,17 @@ type ProbeResult struct {
 	Forwarded bool // UDP: the datagram reached the target
 }
 
-// ProbeTCP opens a connection to l with key k, relays one request through the echo target.
+// ProbeTCP opens a connection to l with key k from a fresh client address.
 func (w *World) ProbeTCP(l Listener, k Key, seed uint64) ProbeResult {
 	w.nclient++
+	return w.ProbeTCPFrom(l, k, seed, fmt.Sprintf("203.0.113.%d", 1+w.nclient%200))
+}
+
+// ProbeTCPFrom opens a connection to l with key k from the given client IP and relays one
+// request through the echo target.
+func (w *World) ProbeTCPFrom(l Listener, k Key, seed uint64, ip string) ProbeResult {
 	key := world.MakeKey(k.ID, k.Cipher, k.Secret)
-	from := fmt.Sprintf("203.0.113.%d:0", 1+w.nclient%200)
+	from := ip + ":0"
 	c, err := vnet.EnvDial(world.TCPAddr(from), l.DialAddr())
 	if err != nil {
 		return ProbeResult{Refused: true}
@@ -300,11 +306,18 @@ func (w *World) ProbeTCP(l Listener, k Key, seed uint64) ProbeResult {
 	return res
 }
 
-// ProbeUDP sends one datagram to l with key k and reports whether it reached the target.
+// ProbeUDP sends one datagram to l with key k from a fresh client address.
 func (w *World) ProbeUDP(l Listener, k Key, seed uint64) ProbeResult {
 	w.nclient++
+	return w.ProbeUDPFrom(l, k, seed, fmt.Sprintf("203.0.113.%d", 1+w.nclient%200))
+}
+
+// ProbeUDPFrom sends one datagram to l with key k from the given client IP (a fresh port) and
+// reports whether it reached the target and the answer came back.
+func (w *World) ProbeUDPFrom(l Listener, k Key, seed uint64, ip string) ProbeResult {
+	w.nclient++
 	key := world.MakeKey(k.ID, k.Cipher, k.Secret)
-	from := fmt.Sprintf("203.0.113.%d:%d", 1+w.nclient%200, 20000+w.nclient)
+	from := fmt.Sprintf("%s:%d", ip, 20000+w.nclient)
 	sock, err := vnet.EnvListenUDP(world.UDPAddr(from))
 	if err != nil {
 		panic(err)
